@@ -64,9 +64,9 @@ def lookup(I, d: LazyDictV, key, node=None):
         d.n_touch += 1
         d.touched_log.append((n, key))
         v = I.call(d.gen_value, [I.ghost.vc, f"{d.ident}[{n}]", key], {}, node)
-        e = [key, v, True]
+        e = [key, v, True, v, True]
     else:
-        e = [key, None, False]
+        e = [key, None, False, None, False]
     d.overlay.append(e)
     return e
 
@@ -163,7 +163,7 @@ def items_seq(I, d, kind, node=None):
                 d.n_touch += 1
                 d.touched_log.append((nn, k))
                 v = I.call(d.gen_value, [I.ghost.vc, f"{d.ident}[{nn}]", k], {}, node)
-                d.overlay.append([k, None, False])
+                d.overlay.append([k, None, False, None, False])
                 memo[key_i] = (k, v)
         return proj(memo[key_i])
 
